@@ -270,6 +270,12 @@ func cmdRun(args []string) int {
 			}
 		}
 		for k, v := range s.Counters {
+			if strings.HasPrefix(k, "max_") {
+				if v > agg.Counters[k] {
+					agg.Counters[k] = v
+				}
+				continue
+			}
 			agg.Counters[k] += v
 		}
 		for k, v := range s.ViolationKeys {
@@ -357,6 +363,7 @@ func cmdRun(args []string) int {
 		}
 	}
 	os.MkdirAll(filepath.Join(verifDir, "replays"), 0o755)
+	histRuns := map[int][]core.Summary{}
 	var replayPaths []string
 	for _, k := range unknownOrder {
 		v := unknownClasses[k]
@@ -386,16 +393,31 @@ func cmdRun(args []string) int {
 			// before (state carried between calls). The worker's run is deterministic, so re-run that
 			// worker twice and require the same class both times.
 			hits := 0
-			for i := 0; i < 2; i++ {
-				out := filepath.Join(work, fmt.Sprintf("hist-%d-%d.json", v.Shard, i))
-				cmd := exec.Command(bin, "run", id, "--tier", *tier, "--shard", strconv.Itoa(v.Shard), "--nshards", strconv.Itoa(*shards), "--out", out)
-				cmd.Dir = work
-				cmd.Env = append(os.Environ(), "GOMAXPROCS=2", "MXJ_RACE_BIN="+raceBin, "MXJ_WORK="+work)
-				if cmd.Run() == nil {
-					var hs core.Summary
-					if data, err := os.ReadFile(out); err == nil && json.Unmarshal(data, &hs) == nil && hs.ViolationKeys[k] > 0 {
-						hits++
-					}
+			if _, done := histRuns[v.Shard]; !done {
+				// both re-runs of this worker at once; later classes from the same worker reuse them
+				res := make([]core.Summary, 2)
+				var wg sync.WaitGroup
+				for i := 0; i < 2; i++ {
+					wg.Add(1)
+					go func(i int) {
+						defer wg.Done()
+						out := filepath.Join(work, fmt.Sprintf("hist-%d-%d.json", v.Shard, i))
+						cmd := exec.Command(bin, "run", id, "--tier", *tier, "--shard", strconv.Itoa(v.Shard), "--nshards", strconv.Itoa(*shards), "--out", out)
+						cmd.Dir = work
+						cmd.Env = append(os.Environ(), "GOMAXPROCS=2", "MXJ_RACE_BIN="+raceBin, "MXJ_WORK="+work)
+						if cmd.Run() == nil {
+							if data, err := os.ReadFile(out); err == nil {
+								json.Unmarshal(data, &res[i])
+							}
+						}
+					}(i)
+				}
+				wg.Wait()
+				histRuns[v.Shard] = res
+			}
+			for _, hs := range histRuns[v.Shard] {
+				if hs.ViolationKeys[k] > 0 {
+					hits++
 				}
 			}
 			if hits == 2 {
